@@ -131,6 +131,16 @@ def check_record(args):
             _, ll = listing(m)
             if ll != [x + 1 for x in exp]:
                 out['mism'].append(('load-listing', dict(args=args_, listed=ll, spec=[x + 1 for x in exp])))
+            # the program's own per-object description of the attachment (as_cmdline, load_by_geo: "k-th pulse of
+            # the object with tag t") must name the same pulses when it is read back
+            if got == exp:
+                from .c15 import tokens
+                mb, txt = run_main(tokens(m.as_cmdline(load_by_geo=True)))
+                if not isinstance(mb, Mininec):
+                    out['mism'].append(('valid-load-rejected', dict(args=args_, msg='written per-object form: ' + txt[:200])))
+                elif sorted(int(p.idx) for l in mb.loads for p in l.pulses) != sorted(exp):
+                    out['mism'].append(('per-object-form-written-names-other-pulses',
+                                        dict(args=args_, code=sorted(int(p.idx) for l in mb.loads for p in l.pulses), spec=sorted(exp))))
             # "loads each of those pulses exactly once", "both forms give identical results": the load terms of the
             # matrix equal those of the same antenna with one separate single-pulse load per attached pulse
             if len(exp) >= 2 and got == exp:
